@@ -107,10 +107,16 @@ def run_case(case, ctx):
     st = ctx.stats
     pat = patterns.make(rng, case["pattern"])
     atol = case["atol"]
+    retabled = case["s"] % 5 == 4 and len(set(pat["elements"])) >= 2
     built = planted.build(rng, pat, case["cell"], atol, n_copies=len(case["crossings"]), crossings=case["crossings"], poses=case["poses"],
-                          decoys=case["decoys"], n_bystanders=int(rng.integers(0, 6)), n_distractors=int(rng.integers(0, 4)))
+                          decoys=list(case["decoys"]) + (["first_element_other"] if retabled and not case["cell"].endswith("minimal") else []),
+                          n_bystanders=int(rng.integers(0, 6)), n_distractors=int(rng.integers(0, 4)))
     atoms = built["atoms"]
-    patoms = patterns.to_atoms(pat, unused_type=(case["s"] % 5 == 2))
+    patoms = patterns.to_atoms(pat, unused_type=(case["s"] % 5 == 2), table_order="reversed" if retabled else None)
+    if retabled:
+        st.count("searches_with_a_pattern_whose_first_atom_is_not_of_the_first_type")
+        if any(d == "first_element_other" for d, _ in built["decoy_groups"]):
+            st.count("searches_beside_a_copy_whose_first_atom_is_another_element_of_the_pattern")
     nmatches = 0
     hintsets = patterns.valid_hint_sets(pat, rng, k=3)
     for hi, hints in enumerate(hintsets):
@@ -244,6 +250,8 @@ def requirements(stats, tier):
         need.append("only %d matches passed through the witness check" % stats.get("contract_eval.C01.matches_checked"))
     if stats.get("contract_eval.C01.find_post") < stats.get("direct_searches") + stats.get("searches_through_replace"):
         need.append("fewer postcondition evaluations than searches: a binding bypasses the contract")
+    if stats.get("searches_beside_a_copy_whose_first_atom_is_another_element_of_the_pattern") < (30 if tier == "quick" else 2000):
+        need.append("searches with a re-tabled pattern beside a look-alike with another first element: %d" % stats.get("searches_beside_a_copy_whose_first_atom_is_another_element_of_the_pattern"))
     if stats.get("mofun_warning.no_possible_rotation") < 10:
         need.append("the chirality/rotation re-check rejected fewer than 10 candidates: decoys did not reach it")
     if stats.get("direct_searches") and sum(v for k, v in stats.counts.items() if k.startswith("searches_that_raised.")) > 0.2 * stats.get("direct_searches"):
